@@ -200,7 +200,8 @@ EXT3 = {
     "C05": "Later rounds: post-selected measurements on entangled bosonic cat states (spectator judged against the dense Fock reference); conditional update of the unmeasured mode on the Fock simulator (photon counting with every answer, homodyne post-selected on positive, zero and negative values) on entangled two-mode states.",
     "C06": "Later rounds: the rejection sampler of the bosonic simulator on non-Gaussian states (real- and complex-representation cat states, Fock(2), GKP; alone or entangled; either mode; homodyne at 3 angles and heterodyne): every peak the sampler can pick and 44 answered heights per phase-space point locate the acceptance probability; acceptance x proposal density (reconstructed from the arguments of the draws) must be proportional to the Born density; returned value and conditional mixture for the accepted point. Measurements after a mode deletion: every measurement of a menu on a surviving mode of a 3-mode register against the same measurement on a fresh two-mode twin (all simulators, every deleted mode); column order of Result.samples on a 12-mode register.",
     "C07": "Later rounds: GKP states on the Fock simulator.",
-    "C09": "Later rounds: the state after reset + re-run must equal a fresh engine's.",
+    "C09": "Later rounds: the state after reset + re-run must equal a fresh engine's; compile(compiler, shots / cutoff_dim) twice on one program: options of the user's program and of the first compiled copy must stay as they were.",
+    "C16": "Later rounds: one- and two-mode Gaussian states at hbar 0.5, 1, 3 - every query twice, cov() before and after, closed forms.",
     "C10": "Later rounds: measured outcomes equal to zero; every sequence of 2-3 gates on one wire over {G(measured), G(0.4), G(free), H(measured)} for five one-parameter families with and without the optimiser; sessions of independent programs (measure / use / unrelated, every order, one by one and as a list) followed by reset() and the user alone (differential against a fresh engine).",
     "C11": "Later rounds: every order of three-mode operations in the merging compilers.",
     "C12": "Later rounds: squeezers with a phase, Xunitary without a device; devices with 3 and 4 signal modes and beamsplitters between non-adjacent / outer signal modes in the quick tier.",
